@@ -50,6 +50,7 @@ def run(ctx) -> None:
     rep.rule("C08.R5", "missing inputs are reported by raising MissingInputError", floor=2)
     rep.rule("C08.R6", "inner bound values enter the specification only under inputs of their wrapper", floor=2)
     rep.rule("C08.R7", "a node counts as bypassed only if a non-empty set of its outputs is provided", floor=2)
+    rep.rule("C08.R11", "the active scope follows every kind of edge: what a selected producer waits for (ordering) or is routed by (control) is in scope like what it reads", floor=3)
     rep.rule("C08.R10", "validation matches supplied entry points per cycle with the same decomposition (strongly connected components of the data-only graph) that the reported specification lists them by", floor=2)
     rep.rule("C08.R9", "a run-time recomputation of the specification is fed the same raw graph state as the cached one", floor=1)
     rep.rule("C08.R8", "every reduction of the required set that validation derives from bound values alone is also made by the reported specification", floor=1)
@@ -245,6 +246,15 @@ def run(ctx) -> None:
     check_inner_bound_merge_complete(ctx, "C08.R6")
     check_spec_recomputation_inputs(ctx, "C08.R9")
     check_cycle_decomposition_agrees(ctx, "C08.R10")
+    # ---- R11 --------------------------------------------------------------------
+    scope_fs = [db.func("graph.input_spec._compute_active_scope")] + [g_ for g_ in db.closure([db.func("graph.input_spec._compute_active_scope")], property_reads=False) if g_.module.name == "hypergraph.graph.input_spec"]
+    seen11 = set()
+    for f11 in scope_fs:
+        if f11.qname in seen11:
+            continue
+        seen11.add(f11.qname)
+        filt = [x for x in walk_local(f11.node) if isinstance(x, ast.Constant) and x.value in ("edge_type", "ordering", "control", "data")]
+        rep.add("C08.R11", f"{f11.qname}:all-edge-kinds", not filt, f"{f11.module.rel}:{filt[0].lineno if filt else f11.lineno}", "reachability over the whole graph (no edge kind is skipped)" if not filt else f"the scope computation distinguishes edge kinds ('{filt[0].value}'): a node the selected producer only waits for drops out of scope, its inputs vanish from the reported specification, and the run with exactly the reported inputs never produces the selected output")
 
 
 def check_cycle_decomposition_agrees(ctx, rule: str) -> None:
